@@ -89,7 +89,11 @@ func (x *Exec) call(st *State, fr *Frame, v *ssa.Call) []*State {
 	site := x.siteName(fr, v)
 	// call-site assertions from the contract of the function under verification
 	if x.topC != nil && fr.fn == x.top {
-		if as := x.topC.Calls[x.siteOrd(fr, v)]; len(as) > 0 {
+		as := x.topC.Calls[x.siteOrd(fr, v)]
+		if so := x.siteOrd(fr, v); strings.Contains(so, "#") {
+			as = append(append([]Clause{}, as...), x.topC.Calls[so[:strings.Index(so, "#")]+"#*"]...)
+		}
+		if len(as) > 0 {
 			env := x.envFor(st, fr)
 			for i, a := range c.Args {
 				env.vars[fmt.Sprintf("arg%d", i)] = x.get(fr, a)
